@@ -33,19 +33,18 @@ Fixpoint find_eol_endstream (s : bytes) : option nat :=
     else option_map S (find_eol_endstream s')
   end.
 
-(* trimTrailingEOL on the candidate data: new length *)
-Definition trim_len (b : bytes) : nat :=
-  match rev b with
-  | [] => 0%nat
-  | x :: r =>
-    if x =? LF then
-      match r with
-      | y :: _ => if y =? CR then (length b - 2)%nat else (length b - 1)%nat
-      | [] => (length b - 1)%nat
-      end
-    else if x =? CR then (length b - 1)%nat
-    else length b
-  end.
+(* trimTrailingEOL: [before] are the bytes in front of the end-of-line byte [m] that the
+   regexp matched directly in front of endstream.  Exactly one end-of-line marker is removed:
+   when m is the LF of a CR LF pair the CR belongs to the marker; everything else is data
+   (also when it ends in an end-of-line itself). *)
+Definition trim_len (before : bytes) (m : byte) : nat :=
+  if m =? LF then
+    match rev before with
+    | y :: _ => if y =? CR then (length before - 1)%nat else length before
+    | [] => 0%nat
+    end
+  else length before.
+Definition trim_at (data : bytes) (p : nat) : nat := trim_len (firstn p data) (nth p data 0).
 
 Definition stream_extent (s : bytes) (declared : option Z) : res (nat * nat) :=
   let k :=
@@ -75,7 +74,7 @@ Definition stream_extent (s : bytes) (declared : option Z) : res (nat * nat) :=
     else
       match find_eol_endstream data with
       | None => Err Malformed                   (* unexpected EOF while reading Stream *)
-      | Some p => Ok (k, trim_len (firstn p data))
+      | Some p => Ok (k, trim_at data p)
       end
   end.
 
